@@ -15,6 +15,7 @@ import (
 
 	"verif/mc/drive"
 	"verif/mc/fw"
+	. "verif/mc/refsem"
 
 	lang "github.com/alligator/jqawk/src"
 )
@@ -199,6 +200,46 @@ func c01Matrix(c *fw.Ctx, part, parts int, viaCLI bool) {
 							c.Do(func() any { return s }, func() *fw.Violation { return c01RunOne(c, s) })
 						}
 					}
+				}
+			}
+		}
+	}
+}
+
+// c01SlotSignals: a statement can sit in any expression position through a match block, so every signal is also
+// placed in every expression slot of the C11 slot list (loop headers, call arguments, indices, conditions, patterns,
+// selectors ...), directly and with the rule bodies wrapped in an enclosing loop.
+func c01SlotSignals(c *fw.Ctx) {
+	sigs := []struct {
+		name string
+		st   func() Stmt
+	}{
+		{"next", func() Stmt { return &Next{} }}, {"exit", func() Stmt { return &Exit{} }}, {"break", func() Stmt { return &Break{} }},
+		{"continue", func() Stmt { return &Continue{} }}, {"return", func() Stmt { return &Return{X: N("1")} }},
+	}
+	for _, sg := range sigs {
+		for si, sl := range c11Slots() {
+			for _, wrap := range []bool{false, true} {
+				e := func() Expr {
+					return &MatchExpr{Subj: N("1"), Cases: []MatchCase{{Pats: []Expr{V("_")}, Block: Blk(sg.st())}}}
+				}
+				rules, funcs, sels := sl.mk(e)
+				if wrap {
+					for _, r := range rules {
+						if r.Body != nil {
+							r.Body = Blk(&ForIn{V: "outer", Iter: Arr_(N("1"), N("2")), Body: r.Body})
+						}
+					}
+				}
+				prog := Source(&Program{Funcs: append(c11Funcs(), funcs...), Rules: rules}, Style{})
+				var ss []string
+				for _, x := range sels {
+					ss = append(ss, ExprSource(x, Style{}))
+				}
+				c.State(fmt.Sprintf("%s in slot %d (%s) loop=%v", sg.name, si, sl.name, wrap))
+				for _, in := range []int{0, 1} {
+					s := c01Spec{Form: "tokens", Program: prog, Sels: ss, Input: in}
+					c.Do(func() any { return s }, func() *fw.Violation { return c01RunOne(c, s) })
 				}
 			}
 		}
@@ -554,6 +595,7 @@ func init() {
 				}
 				c.Note("corpus programs", int64(len(corpus)))
 			default:
+				c01SlotSignals(c)
 				c01DeepAll(c)
 			}
 		},
